@@ -27,8 +27,11 @@ class C10(Prop):
     id = "C10"
     title = "Downlink NAS messages from a conformant AMF are recovered exactly"
     lean_module = "Stgutg.Props.C10"
-    gen = ["tables"]
-    theorems = [
+    extra_modules = ["Stgutg.Props.Glue.tglib_NASDecode", "Stgutg.Props.Glue.tglib_GetNasPdu"]
+    gen = ["tables", "procs"]
+    theorems = ["Stgutg.Props.GluePinned." + t for t in [
+        # the glue functions this property depends on are still the text the models were written from (gen procs)
+        "tglib_NASDecode", "tglib_GetNasPdu"]] + [
         "Stgutg.Props.C10.step_recovers",
         "Stgutg.Props.C10.count_estimate",
         "Stgutg.Props.C10.history_recovers",
